@@ -26,7 +26,7 @@ THOROUGH_OPS = {
     "dict": ["setitem_new", "setitem_replace", "delitem", "pop", "popitem", "clear", "update_map", "setdefault_new", "reset", "reset_empty"],
     "list": ["append", "setitem", "delitem", "insert", "extend", "pop", "clear", "reset", "reset_longer", "reverse"],
 }
-THREE_STEP_OPS = {"dict": ["setitem_new", "delitem", "clear", "update_two_new"], "list": ["append", "delitem", "clear", "insert"]}
+THREE_STEP_OPS = {"dict": ["setitem_new", "delitem", "clear"], "list": ["append", "delitem", "clear"]}
 
 
 STEPS3 = False  # set by prog3 (thorough): 3-step programs on the JSON family with a smaller operation table
